@@ -301,7 +301,35 @@ class H5Group:
             if isinstance(grp, h5py.Group):
                 # a copied Property is a dataset: nothing below it
                 grp.visititems(change_id)
+                self._rename_id_links(None, grp)
+                grp.visititems(self._rename_id_links)
         return grp
+
+    @staticmethod
+    def _rename_id_links(_, grp):
+        """
+        Link lists name their members by entity id; after the ids of a copy
+        were renewed the link names have to follow (in creation order, which
+        keeps the order of the list).
+        """
+        if not isinstance(grp, h5py.Group):
+            return
+        names = []
+        grp.id.links.iterate(names.append, idx_type=h5py.h5.INDEX_CRT_ORDER,
+                             order=h5py.h5.ITER_INC)
+        for lname in names:
+            if isinstance(lname, bytes):
+                lname = lname.decode()
+            if not util.is_uuid(lname):
+                continue
+            child = grp.get(lname)
+            if not isinstance(child, h5py.Group):
+                continue
+            newid = child.attrs.get("entity_id")
+            if isinstance(newid, bytes):
+                newid = newid.decode()
+            if newid and newid != lname:
+                grp.move(lname, newid)
 
     @property
     def parent(self):
